@@ -46,7 +46,7 @@ func (s *PersistentHybridIndex) compactSegments(segments []*segmentMetadata) err
 	}
 
 	// Create new merged index
-	mergedIndex := NewHybridSearchIndex(
+	mergedIndex := newHybridIndexLike(
 		s.config.VectorIndexTemplate,
 		s.config.TextIndexTemplate,
 		s.config.MetadataIndexTemplate,
